@@ -8,14 +8,18 @@ TECH = "deterministic simulation with fault injection: seeded search over schedu
 CLAIMED = {
  "C01": ("exploration", "4 C01",
    "Seeded deterministic simulation of two real nodes under an honest (delay/reorder/duplicate) network with "
-   "0-6 crash/recover cycles per node placed anywhere between start() and finish(), swarm over all shipped sets, "
+   "0-6 crash/recover cycles per node placed anywhere between start() and finish() (in 8% of the runs restarts of the "
+   "whole simulated process with a freshly imported copy of the library and a neighbour session of the other flavour), swarm over all shipped sets, "
    "custom seeds, generated IntegerGroups and the library's Edwards code on toy curves, with edge entropy streams "
-   "(scalars 0, 1, q-1, forced re-draws). Oracle needs no model: equal 32-byte keys or one of the two degenerate "
-   "coincidences decided from the bytes on the wire. Sampling, not proof.",
+   "(scalars 0, 1, q-1, forced re-draws; all scalar pairs of tiny groups walked along the run index). Oracle needs no "
+   "model: equal 32-byte keys, honest persist/restore never fails, or one of the two degenerate coincidences decided "
+   "from the bytes on the wire. Runs of a chunk share one forked process; a violation that needs an earlier session's "
+   "leftovers is replayed with that session as prelude. Sampling, not proof.",
    "Trusts the simulator's causality bookkeeping and the byte-level identity test for the two exemptions."),
  "C02": ("exploration", "4 C02",
    "Same simulated deployment with 1-3 configuration differences (password, identities incl. swaps and boundary "
-   "shifts, parameter set) and/or symbolic in-flight faults on one or both messages (18 fault kinds incl. coordinated "
+   "shifts, near-miss strings such as transcoded / NUL-extended / separator-joined identities, parameter set incl. empty "
+   "and near-miss seeds) and/or symbolic in-flight faults on one or both messages (18 fault kinds incl. coordinated "
    "two-sided strategies, crash/restore in between). Oracle: no pair of finish() calls may return equal keys unless "
    "both ends had identical views. Found the Ed25519 decoding defect (now fixed in /repo) on the pinned tree.",
    "Exemptions (twin symmetric sessions receiving identical bytes; parameter differences that vanish for zero "
@@ -29,7 +33,8 @@ CLAIMED = {
    "published vectors and to frozen constants of the four shipped sets."),
  "C05": ("exploration", "4 C05",
    "A simulated adversary delivers malformed element encodings (14 symbolic classes, random strings of every length, "
-   "dense sampling of all (y,sign) of toy curves and of 1-2 byte toy fields) to fresh and restored victims through "
+   "dense windows over all (y,sign) of toy curves and all strings of 1-2 byte toy fields stratified on the run index, "
+   "elements of other groups, strings offered twice in a row) to fresh and restored victims through "
    "finish() and to bytes_to_element(); oracle = the model's strict decoder (only-if direction) and re-encoding "
    "equality. Found four classes of wrongly accepted Ed25519 strings on the pinned tree (fixed in /repo).",
    "Model strict decoder trusted; toy-curve runs execute the library's own Edwards source on replaced constants."),
@@ -41,18 +46,22 @@ CLAIMED = {
    "decided with the model's strict decoder."),
  "C07": ("exploration", "4 C07",
    "Seeded call histories of length <= 10 over 10 call symbols (incl. start with failing entropy, six kinds of "
-   "finish, serialize, restore-and-continue) on one instance chain, checked call by call against a specification "
+   "finish, serialize, restore-and-continue) on one instance chain - run indices 0..3329 walk all histories of length "
+   "<= 3 for the three classes - checked call by call against a specification "
    "automaton that demands exactly what the statement fixes and is permissive where it is silent; distinct histories "
    "of length <= 4 reached are counted.", "Sampling of histories, not the exhaustive enumeration the quantifier speaks of."),
  "C08": ("exploration", "4 C08",
    "Three twins with identical arguments and entropy stream - one with 0-6 persist/crash/recover cycles at generated "
-   "points, one serialized but never restored, one untouched - receive the same inbound bytes (valid, reflection of "
+   "points (12% as restarts of the whole simulated process next to a neighbour session of the other class family), one "
+   "serialized but never restored, one untouched - receive the same inbound bytes (valid, reflection of "
    "the original message, wrong side, malformed, identity): same key or same exception class; serialize() draws no "
-   "entropy (seam and os.urandom tripwire), is repeatable, printable-ASCII JSON, JSON-equal along the chain.",
+   "entropy (seam and os.urandom tripwire), never raises, is repeatable, printable-ASCII JSON, JSON-equal along the "
+   "chain; an honest restore is never refused.",
    "Exception kind compared by class name."),
  "C09": ("exploration", "4 C09",
    "State persisted under (role, parameters) is recovered under every other role and under parameter sets differing "
-   "in one named way (other shipped set, other M/N/S seed, other generator, other modulus, other custom group); "
+   "in one named way (other shipped set, other / exchanged / boundary-shifted M,N,S seeds, other generator, other "
+   "modulus, other custom group; parameter-set objects optionally built and freed per session); "
    "oracle: raises with the named class, or - when nothing the role uses differs - returns an instance that derives "
    "the twin's key and refuses the original message reflected. One open known finding (generator not fingerprinted).",
    "Differences are judged on group constants and element bytes from the model, not on seeds; modulus/group "
@@ -66,14 +75,16 @@ CLAIMED = {
  "C11": ("exploration", "4 C11",
    "Entropy accounting over simulated histories (only start() draws, only from the seam; tripwire on os.urandom / "
    "random._urandom), range and provenance of the scalar under adversarial streams (boundary values, forced "
-   "re-draws, stuck RNG), and a seam sweep: ALL first-round answers of the entropy seam (and all second-round answers "
-   "under sampled rejected prefixes) for seeded ranges of width <= 65535, for random_scalar and for start() on small "
-   "groups, counting answers per returned value (equal, non-zero, acceptance >= 1/2).",
+   "re-draws, stuck RNG, refused second start(), at most 4096 draws), and a seam sweep: ALL first-round answers of the "
+   "entropy seam (all second-round answers under sampled rejected prefixes; all answers after 2..300 rejected ones) for "
+   "seeded and index-stratified ranges of width <= 65535, for random_scalar and for start() on small groups, counting "
+   "answers per returned value (equal, non-zero, acceptance >= 1/2).",
    "The sweep is a bounded enumeration inside a run over one seam; ranges are sampled, not all widths <= 2^16."),
  "C16": ("exploration", "4 C16",
    "Worlds of 2-8 concurrent sessions (mixed roles, parameter sets incl. several custom sets over one shared group "
    "object) run under two schedules - cooperative interleavings of API calls, or one real thread per session under a "
-   "baton scheduler with PRNG-chosen pre-emption at line events in library frames - in a forked child of a pristine "
+   "baton scheduler with PRNG-chosen pre-emption at line events or at (source line, k-th hit) sites in library frames, "
+   "library locks replaced by cooperative ones - in a forked child of a pristine "
    "process; every session is re-run alone in its own freshly forked pristine child; messages, keys, blobs must be "
    "identical and shared group/parameter objects unchanged.",
    "Pre-emption granularity is one Python line inside spake2 frames."),
